@@ -23,8 +23,24 @@ var (
 	dstHost = addr.MustParseHost("10.0.0.8")
 )
 
-// mkPacket wraps a raw SCION path into a packet with a UDP or SCMP traceroute payload.
+// extension-header variants of a packet: none, hop-by-hop, end-to-end (with a packet
+// authenticator option), both
+const (
+	extNone = iota
+	extHBH
+	extE2E
+	extBoth
+)
+
+var extNames = []string{"plain", "hbh", "e2e-spao", "hbh+e2e"}
+
 func mkPacket(src, dst addr.IA, sh, dh addr.Host, rawPath []byte, traceroute bool) ([]byte, error) {
+	return mkPacketExt(src, dst, sh, dh, rawPath, traceroute, extNone)
+}
+
+// mkPacketExt wraps a raw SCION path into a packet with a UDP or SCMP traceroute payload, preceded
+// by the requested extension headers.
+func mkPacketExt(src, dst addr.IA, sh, dh addr.Host, rawPath []byte, traceroute bool, ext int) ([]byte, error) {
 	var rp scion.Raw
 	if err := rp.DecodeFromBytes(rawPath); err != nil {
 		return nil, err
@@ -38,18 +54,51 @@ func mkPacket(src, dst addr.IA, sh, dh addr.Host, rawPath []byte, traceroute boo
 	}
 	buf := gopacket.NewSerializeBuffer()
 	opts := gopacket.SerializeOptions{FixLengths: true, ComputeChecksums: true}
-	var err error
+	l4 := slayers.L4UDP
 	if traceroute {
-		s.NextHdr = slayers.L4SCMP
+		l4 = slayers.L4SCMP
+	}
+	layers := []gopacket.SerializableLayer{s}
+	s.NextHdr = l4
+	var hbh *slayers.HopByHopExtn
+	var e2e *slayers.EndToEndExtn
+	if ext == extHBH || ext == extBoth {
+		hbh = &slayers.HopByHopExtn{}
+		hbh.Options = []*slayers.HopByHopOption{{OptType: 0x1e, OptData: []byte{1, 2, 3, 4, 5, 6}}}
+		hbh.NextHdr = l4
+		s.NextHdr = slayers.HopByHopClass
+		layers = append(layers, hbh)
+	}
+	if ext == extE2E || ext == extBoth {
+		spi, err := slayers.MakePacketAuthSPIDRKey(1, slayers.PacketAuthHostHost, slayers.PacketAuthSenderSide)
+		if err != nil {
+			return nil, err
+		}
+		auth, err := slayers.NewPacketAuthOption(slayers.PacketAuthOptionParams{SPI: spi,
+			Algorithm: slayers.PacketAuthCMAC, TimestampSN: 0x0102030405, Auth: make([]byte, 16)})
+		if err != nil {
+			return nil, err
+		}
+		e2e = &slayers.EndToEndExtn{}
+		e2e.Options = []*slayers.EndToEndOption{auth.EndToEndOption}
+		e2e.NextHdr = l4
+		if hbh != nil {
+			hbh.NextHdr = slayers.End2EndClass
+		} else {
+			s.NextHdr = slayers.End2EndClass
+		}
+		layers = append(layers, e2e)
+	}
+	if traceroute {
 		scmp := &slayers.SCMP{TypeCode: slayers.CreateSCMPTypeCode(slayers.SCMPTypeTracerouteRequest, 0)}
 		scmp.SetNetworkLayerForChecksum(s)
-		err = gopacket.SerializeLayers(buf, opts, s, scmp, &slayers.SCMPTraceroute{Identifier: 4242, Sequence: 7})
+		layers = append(layers, scmp, &slayers.SCMPTraceroute{Identifier: 4242, Sequence: 7})
 	} else {
 		udp := &slayers.UDP{SrcPort: 40001, DstPort: 40002}
 		udp.SetNetworkLayerForChecksum(s)
-		err = gopacket.SerializeLayers(buf, opts, s, udp, gopacket.Payload([]byte("payload!")))
+		layers = append(layers, udp, gopacket.Payload([]byte("payload!")))
 	}
-	if err != nil {
+	if err := gopacket.SerializeLayers(buf, opts, layers...); err != nil {
 		return nil, err
 	}
 	return append([]byte(nil), buf.Bytes()...), nil
